@@ -13,7 +13,7 @@ const FILES: &[(&str, &str)] = &[
     ("src/lib/src/a.lua", "-- c5\nlocal value5 = 5\ndo end\nreturn value5\n"),
 ];
 
-const PATTERNS: &[&str] = &["**", "*", "**/*.lua", "src/*.lua", "src/**", "src/lib/a.lua", "**/a.lua", "*.luau", "src/lib/**/*.lua", "**/lib/*", "src/*/a.lua", "nothing", "src/a.lua", "a.lua", "lib/a.lua", "**/src/a.lua"];
+const PATTERNS: &[&str] = &["**", "*", "**/*.lua", "src/*.lua", "src/**", "src/lib/a.lua", "**/a.lua", "*.luau", "src/lib/**/*.lua", "**/lib/*", "src/*/a.lua", "nothing", "src/a.lua", "a.lua", "lib/a.lua", "**/src/a.lua", "src/lib", "src", "src/lib/"];
 const RULES: &[&str] = &["remove_comments", "rename_variables", "remove_empty_do"];
 
 /// independent matcher for the pattern alphabet: `**` = any number of directories, `*` = any run of non-separator characters
@@ -52,6 +52,13 @@ fn selected(apply: &[&str], skip: &[&str], path: &str) -> bool {
 
 fn filter_json(apply: &[&str], skip: &[&str], list_form: bool) -> String {
     let mut parts = Vec::new();
+    // an empty list written out (`apply_to_files: []`) means the same as leaving the key out
+    if apply.is_empty() && list_form {
+        parts.push("apply_to_files: []".to_owned());
+    }
+    if skip.is_empty() && list_form && apply.len() % 2 == 1 {
+        parts.push("skip_files: []".to_owned());
+    }
     let fmt = |v: &[&str]| {
         if v.len() == 1 && !list_form {
             format!("'{}'", v[0])
